@@ -157,6 +157,15 @@ def run(rep, tier):
                                [f"pairing on {n} positions", "entry in {convert_to_dot_bracket x2, dot_bracket+HiGHS, dot_bracket+default}",
                                 "behaviour in {None, raise, NotSolved, Infeasible, Unbounded, Undefined, ok}"], expected=exp, chunksize=32)
         parts.append(pt)
+    # structured families: two independent knots (FCFS state across stems) and >= 11 stems (index-dependent read-back), a subset of configurations
+    tails = [p for n in (4, 5, 6) for p in all_pairings(n) if is_knotted(p)]
+    small = [p for n in (4, 5) for p in all_pairings(n) if is_knotted(p)]
+    structs = [concat(a, b) for a in tails for b in small] + [padded(k, tails[0]) for k in (8, 9, 10, 11, 12)]
+    cfgs = [(0, -1, -1), (0, 0, 5), (0, 1, 5), (0, 2, 2), (0, 3, 0), (0, 4, 4), (0, 5, 0), (1, 0, 0), (1, 5, 0), (2, -1, 0), (2, 1, 0), (2, 5, 0)]
+    fam = [(p, c[0], c[1], c[2]) for p in structs for c in cfgs]
+    pt = allsat.run_family("families", "harness.c13", "body", fam, ["two knotted structures one after the other; k leading hairpins + knot (k = 8..12)",
+                                                                      f"{len(cfgs)} entry / configuration / fault combinations"], expected=len(fam), chunksize=32)
+    parts.append(pt)
     e1.collect(rep, parts, "harness.c13")
     # exploration-style keys required for the fault_enumeration level
     nontrivial = 0
